@@ -2,6 +2,10 @@
    One command per input line, one result per output line.
 
    route <av|sf|sc> <op 0..10>                 -> Materialised k | DoComparison k | GridComparison k | Inherited | none
+   rroute <av|sf|sc> <op 0..10>                -> Absent | Swapped k | none      (the reflected method answering `x <op> view`)
+   inplace                                     -> fallback (no in-place method: v op= x is v = v op x) | own
+   rcmpcol <mask> <op> <py|np|bool|other> <bits> <T|F signed> <c>
+                                               -> 256 chars 0/1/- : `operand <op> view` for composed bytes 0..255
    red <av|sf|sc> <T|F multi> <T|F args> <max|min>   -> mat max|min  /  grid max|min  /  gridargs max|min
    cmpcol <mask> <op> <py|np|bool|other> <bits> <T|F signed> <c>
                                                -> 256 chars 0/1/- : `view <op> operand` for composed bytes 0..255
@@ -118,6 +122,17 @@ let handle line =
   let a = Array.of_list (List.filter (fun s -> s <> "") (String.split_on_char ' ' line)) in
   match a.(0) with
   | "route" -> tok_of_route (route_of (cls_of a.(1)) ops.(int_of_string a.(2)))
+  | "rroute" ->
+      (match reflected_route_of (cls_of a.(1)) ops.(int_of_string a.(2)) with
+       | None -> "none"
+       | Some RAbsent -> "Absent"
+       | Some (RSwapped op) -> Printf.sprintf "Swapped %d" (op_index op))
+  | "inplace" -> if views_inplace_absent && views_operator_surface_closed then "fallback" else "own"
+  | "rcmpcol" ->
+      let m = z_of_string a.(1) and op = ops.(int_of_string a.(2)) in
+      let x = operand_of a.(3) (z_of_string a.(4)) (bool_of_tok a.(5)) (z_of_string a.(6)) in
+      let bs = List.init 256 z_of_int in
+      String.concat "" (List.map (function Some true -> "1" | Some false -> "0" | None -> "-") (sfv_rbinop_arr m bs op x))
   | "red" ->
       (match reduce_route (cls_of a.(1)) (bool_of_tok a.(2)) (bool_of_tok a.(3)) (red_of a.(4)) with
        | RedMaterialised r -> "mat " ^ red_name r
